@@ -21,6 +21,16 @@ CLAIMED = {
         design='§5/C15'),
 }
 
+CLAIMED['C14'] = dict(
+    technique='bounded symbolic execution of the real TIMEX parse/format pipeline on symbolic-digit strings (CrossHair + z3), one slice per grammar pattern',
+    text='The real TimexParsing / TimexRegex (stdlib re) / assign_properties / TimexInference / TimexFormat code is run on TIMEX strings whose '
+         'number fields are placeholders for symbolic ints; z3 decides every branch on the values. Each pattern of the datatype grammar '
+         '(derived from the regex source at run time) is one slice whose fields range over their whole calendar range. Asserts: fields '
+         'parsed as written, format->parse gives the same 20 fields, format idempotent, canonical strings unchanged, from_date/from_date_time/from_time canonical.',
+    note='Sound because the TIMEX patterns only test digit-ness (checked on the regex source each run). decimal.Decimal is replaced by a '
+         'text-preserving stub; explicit (start,end,duration) ranges are outside. ' + NOTE_COMMON,
+    design='§5/C14')
+
 NOT_APPLICABLE = {
     'C18': 'ground equality of ~50 concrete generated files against concrete YAML: no quantified variable for a solver to range over; '
            'deciding it is executing the generator (whose dependency ruamel.yaml is absent from every usable interpreter)',
